@@ -6,7 +6,7 @@
    never consulted before it, so the theorems hold for any primitive, even one that accepts everything. *)
 From Coq Require Import String.
 From Coq Require Import ZArith List Bool.
-From Cose Require Import Lib.Base Lib.GenTypes Model.GoVal Model.Key Model.MsgLogic Model.MsgLogicProofs Lib.GoSem Model.HdrSem Gen.SlicesGen Model.SlicesProofs.
+From Cose Require Import Lib.Base Lib.GenTypes Model.GoVal Model.Key Model.MsgLogic Model.MsgLogicProofs Lib.GoSem Model.HdrSem Gen.SlicesGen Model.SlicesProofs Model.Wire Model.Msg Model.MsgObj Model.MsgObjProofs Model.MsgObjExample.
 Import ListNotations.
 Open Scope Z_scope.
 
@@ -89,3 +89,30 @@ Theorem C05_prepare_source_same_in_every_kind :
   /\ cose_Encrypt0Message_Encrypt_prepare = cose_Sign1Message_WithSign_prepare /\ cose_EncryptMessage_Encrypt_prepare = cose_Sign1Message_WithSign_prepare.
 Proof. exact gen_prepares_alike. Qed.
 Print Assumptions C05_prepare_source_same_in_every_kind.
+
+(* ---- over histories of one message object (Model/MsgObj.v, tied to the implementation by the stream objhist): however
+   the object was used before (decoded, produced with other keys, its exported header maps and payload edited in place,
+   verified, refused), the message MarshalCBOR emits after a produce call names, in its protected bucket, an algorithm
+   that passes the gate of the key of that call; only a successful UnmarshalCBOR or produce call ever changes the
+   protected bytes, payload and signature / tag / ciphertext the object emits *)
+Theorem C05_history_marshal_names_key_alg : forall k ops key b,
+  single k = true -> Forall (op_wf k) ops -> origin_after k fresh FromNothing ops = FromProduce key -> marshal_out k (final k fresh ops) = RBytes b ->
+  exists m pb w, marshal_simple k w = Some b /\ w_prot w = Some pb /\ headers_bytes m = Some pb /\ alg_gate m (key_alg key) = true.
+Proof. exact history_marshal_names_key_alg. Qed.
+Print Assumptions C05_history_marshal_names_key_alg.
+
+Theorem C05_history_origin : forall k ops, single k = true -> Forall (op_wf k) ops ->
+  origin_ok k (final k fresh ops) (origin_after k fresh FromNothing ops).
+Proof. exact history_origin_fresh. Qed.
+Print Assumptions C05_history_origin.
+
+Theorem C05_only_decode_and_produce_change_the_authenticated_part : forall k o e,
+  installs e (snd (step k o e)) = false -> oauthd (fst (step k o e)) = oauthd o.
+Proof. exact frame. Qed.
+Print Assumptions C05_only_decode_and_produce_change_the_authenticated_part.
+
+Theorem C05_history_example : single KMac0 = true /\ Forall (op_wf KMac0) ex_ops
+  /\ origin_after KMac0 fresh FromNothing ex_ops = FromProduce (MsgWireCorr.fk_map ex_key)
+  /\ exists b, marshal_out KMac0 (final KMac0 fresh ex_ops) = RBytes b.
+Proof. exact ex_history_is_covered. Qed.
+Print Assumptions C05_history_example.
